@@ -38,11 +38,20 @@ GLOBAL_BENIGN = [
 ]
 
 
+def benign_corpus():
+    """Behaviour-preserving refactorings written by independent sub-agents (/verif/benign/<name>/patch.diff, each verified
+    by the 64 tests and by its own equivalence script): every one must leave every check silent."""
+    out = []
+    for d in sorted((VERIF / "benign").glob("*/patch.diff")):
+        out.append({"id": f"refactor-{d.parent.name}", "kind": "benign", "patch": str(d.relative_to(VERIF)), "why": f"independent behaviour-preserving refactoring {d.parent.name} (see benign/{d.parent.name}/notes.md)"})
+    return out
+
+
 def load(prop):
     p = VARIANTS / f"{prop}.json"
     if not p.exists():
         return []
-    return json.loads(p.read_text()) + GLOBAL_BENIGN
+    return json.loads(p.read_text()) + GLOBAL_BENIGN + benign_corpus()
 
 
 def make_scratch(root) -> Path:
